@@ -545,6 +545,13 @@ class DataflowTransactionContext(ABC):  # pylint: disable=too-few-public-methods
                 true_values, false_values = self._get_asserted(key, exit_ins_arg)
 
                 if len(block.next) == 1:
+                    if len(block.exit_instr.next) > 1:
+                        # bz/bnz jumps to the instruction that follows it: the only successor is
+                        # reached whether the condition is true or false.
+                        self._path_contexts[key][block.next[0]][block] = self._union(
+                            key, true_values, false_values
+                        )
+                        continue
                     # happens when bz/bnz is the last instruction in the contract and there is no default branch
                     default_branch = None
                     jump_branch = block.next[0]
